@@ -3,7 +3,7 @@
  *   usage: rtbuf_drv <scratch-dir>
  *   stdin, one case per line (same syntax as oracle/rtbuf_drv.ml):
  *     R <fx> <cap|D> <clocks c,c,...|-> <ops op;op;...|->
- *       op ::= E<mmccvv>:<hex>,<hex>...  ev={0}; set_mcv; ovni_payload_add per chunk; set_clock(ovni_clock_now()); ovni_ev_emit
+ *       op ::= E<mmccvv>:<hex>,<hex>...  (z = empty chunk) ev={0}; set_mcv; ovni_payload_add per chunk; set_clock(ovni_clock_now()); ovni_ev_emit
  *            | J<mmccvv>:h<hex> | J<mmccvv>:b<seed>.<len>   ...; ovni_ev_jumbo_emit(data)
  *            | F  ovni_flush | X  ovni_thread_free
  *            | P<type>,<value> | O<type>,<value> | S<type>,<value>   ovni_mark_push/pop/set
@@ -90,7 +90,7 @@ run_op(char *op)
 			char *q = strchr(p, ',');
 			size_t hl = q ? (size_t) (q - p) : strlen(p);
 			uint8_t *b = malloc(hl / 2 + 1);
-			size_t n = unhex(p, hl, b);
+			size_t n = (hl == 1 && p[0] == 'z') ? 0 : unhex(p, hl, b);
 			ovni_payload_add(&ev, b, (int) n);
 			free(b);
 			p += hl;
